@@ -40,6 +40,9 @@ type Req struct {
 	Accept string `json:"accept,omitempty"`
 	// ViaSibling: see Case.Sibling
 	ViaSibling bool `json:"via_sibling,omitempty"`
+	// Expect: the request announces "Expect: 100-continue" (what curl does for larger uploads); whether it carries a body
+	// is decided as for any other request. (r7)
+	Expect bool `json:"expect,omitempty"`
 }
 
 // unsatisfiableAccept: the Accept header admits nothing the operation produces (a second, independent defect).
@@ -63,6 +66,9 @@ type Case struct {
 	// request marked ViaSibling is first sent to that operation, unjudged: what one operation of a path admits says
 	// nothing about the other. (r6)
 	Sibling []string `json:"sibling,omitempty"`
+	// NoBodyParam: the operation declares no body parameter (it reads nothing from the body). A request that carries a
+	// body is checked all the same, by both entry points; nothing is decoded. (r7)
+	NoBodyParam bool `json:"no_body_param,omitempty"`
 }
 
 func (c Case) siblingMethod() string {
@@ -91,6 +97,9 @@ func (q Req) build(method string) *http.Request {
 		}
 		if q.Accept != "" {
 			b.WriteString("Accept: " + q.Accept + "\r\n")
+		}
+		if q.Expect {
+			b.WriteString("Expect: 100-continue\r\n")
 		}
 		switch q.Body {
 		case "wire-cl":
@@ -144,6 +153,9 @@ func (q Req) build(method string) *http.Request {
 	if q.Accept != "" {
 		req.Header.Set("Accept", q.Accept)
 	}
+	if q.Expect {
+		req.Header.Set("Expect", "100-continue")
+	}
 	return req
 }
 
@@ -154,6 +166,9 @@ func buildSpec(c Case) json.RawMessage {
 		"operationId": "o",
 		"parameters":  []M{{"name": "b", "in": "body", "schema": M{}}},
 		"responses":   M{"200": M{"description": "ok"}},
+	}
+	if c.NoBodyParam {
+		delete(op, "parameters")
 	}
 	item := M{c.Method: op}
 	if c.Sibling != nil {
@@ -346,7 +361,7 @@ func (r *rig) generated(q Req) (observation, *kit.Violation) {
 	if v := kit.Guard("Context.BindValidRequest", func() {
 		err = r.ctx.BindValidRequest(rq, route, binderFunc(func(br *http.Request, m *middleware.MatchedRoute) error {
 			r.obs.ran++
-			if m.Consumer != nil {
+			if m.Consumer != nil && !r.c.NoBodyParam {
 				var dst interface{}
 				return m.Consumer.Consume(br.Body, &dst)
 			}
@@ -404,6 +419,12 @@ func judgeOne(c Case, q Req, v Verdict, o observation, wild bool) string {
 		return "more than one consumer call"
 	}
 	decoded := func() string {
+		if c.NoBodyParam {
+			if o.status != 200 || o.ran != 1 || len(o.calls) != 0 {
+				return fmt.Sprintf("admitted, a consumer is registered for %s and the operation reads no body: want 200, the handler/binder once, no consumer", v.MT)
+			}
+			return ""
+		}
 		if o.status != 200 || o.ran != 1 || len(o.calls) != 1 {
 			return fmt.Sprintf("admitted and a consumer is registered for %s: want 200, the handler/binder once, that consumer once", v.MT)
 		}
@@ -482,6 +503,9 @@ func (c Case) describe() string {
 		if c.Global {
 			cons += " (global)"
 		}
+	}
+	if c.NoBodyParam {
+		cons += " (operation without body parameter)"
 	}
 	return fmt.Sprintf("%s /p consumes %s, default media type %q, consumers registered for %q", strings.ToUpper(c.Method), cons, c.Default, c.Regs)
 }
